@@ -164,7 +164,7 @@ fn c15_int_decode_top() {
 // continuation octets (v < 2^63 + 2^size - 1)
 #[kani::proof]
 #[kani::unwind(13)]
-fn c15_int_roundtrip() {
+fn c15_int_roundtrip_low() {
     let size = any_size();
     let flags = any_flags(size);
     let value: u64 = kani::any();
